@@ -319,6 +319,12 @@ theorem step_idx {hd : HD K P} (hlaw : hd.Lawful) (hn : hd.NoHardPub) {s : State
   | convertWO =>
     simp only [issuedBy, List.append_nil]; unfold step; simp only
     split; exact x; split; exact x; exact x.frame (opConvertWO_idxFrame _ s)
+  | deriveCache sc a ac b i =>
+    simp only [issuedBy, List.append_nil]; unfold step; simp only
+    split; exact x; split; exact x; rw [opDeriveCache_state]; exact x
+  | rename sc a name =>
+    simp only [issuedBy, List.append_nil]; unfold step; simp only
+    split; exact x; split; exact x; exact x.frame (opRename_idxFrame s sc a name)
 
 theorem foldl_runLog_inv {hd : HD K P} (hlaw : hd.Lawful) (hn : hd.NoHardPub) : ∀ (ops : List (Op K P)) (s : State K P)
     (log : List (KeyObj K P)), Inv hd s → Nodups s → IdxInv hd s log →
